@@ -145,10 +145,13 @@ inductive Op
   | iter (t : Nat)
   /-- `t[k] = v`, `t.fmt = v`: refused -/
   | set (t : Nat)
-  /-- a tuple index NumPy refuses as a whole *after* `__getitem__` has sliced the jd parts by its first entry:
-  `t[first, 0]` on a one-column array (too many indices), `g[first, 3]` on a three-column one (column out of
-  bounds) -/
+  /-- a tuple index NumPy refuses as a whole: `g[first, 3]` on a three-column array (column out of bounds: refused
+  *after* `__getitem__` has sliced the jd parts by its first entry), `t[first, 0]` on a one-column array (too many
+  indices: the jd parts have the shape of the values and refuse the index themselves, nothing is stored) -/
   | getBad (t : Nat) (f : First)
+  /-- `t[i, ...]` (and `t[..., i]` on a one-column array): the single epoch as a tuple index — NumPy makes a 0-d view
+  through `__array_finalize__(t)` with the hand-over, not through `from_jds` -/
+  | getEll (t : Nat) (i : Int)
   /-- `t.squeeze()` with nothing to squeeze: NumPy hands back the object itself -/
   | same (t : Nat)
   /-- `t.flatten()`, `t.astype(float)`, `np.unique(t)`, `np.sort(t)`: refused -/
@@ -289,11 +292,23 @@ def step (clear : Bool) (h : Heap) : Op → Res
     | none => ⟨h, .error, []⟩
     | some a =>
       if a.scalar then ⟨h, .error, []⟩ else
+      if a.fmt ≠ fmtGpsWs then ⟨h, .error, []⟩ else
       match f.positions a.jd1.length with
       -- `self.jd1[first]` raises before anything is stored
       | none => ⟨h, .error, []⟩
       -- the jd parts are stored on `t`, then `ndarray.__getitem__` raises; no array is made
       | some pj => ⟨setAt h t (afterGet clear { a with pending := some (pick a.jd1 pj, pick a.jd2 pj) }), .error, []⟩
+  | .getEll t i =>
+    match h[t]? with
+    | none => ⟨h, .error, []⟩
+    | some a =>
+      if a.scalar then ⟨h, .error, []⟩ else
+      match normIdx a.vals.length i, normIdx a.jd1.length i with
+      | some kv, some kj =>
+        let a' : Arr := { a with pending := some (pick a.jd1 [kj], pick a.jd2 [kj]) }
+        let r := finalize a' (pick a.vals [kv]) true
+        ⟨setAt h t (afterGet clear a') ++ [r], .arr r.obs, [.parent t true]⟩
+      | _, _ => ⟨h, .error, []⟩
   | .same t =>
     match h[t]? with
     | none => ⟨h, .error, []⟩
